@@ -3,6 +3,7 @@
 From Verif Require Import Base.Util Model.Types Model.Outcome Model.Validate Model.OutcomeCase
   Proofs.PerformablesProofs Proofs.OutcomeProofs Gen.Generated.
 From Verif Require Model.Uid Proofs.UidProofs.
+From Verif Require Import Base.GenIR Gen.GeneratedTr Proofs.GenTrPlugin.
 Open Scope N_scope.
 
 (* What the vote table holds after ANY list of observations (any number of oracles, any content):
@@ -114,6 +115,76 @@ Print Assumptions C01_model_passes_checker.
 Theorem C01_gen_threshold : QuorumPerformablesAdd = 1%Z /\ OutcomeAgreedPerformablesLimit = 100%Z.
 Proof. split; reflexivity. Qed.
 Print Assumptions C01_gen_threshold.
+
+Section GenTie.
+Local Open Scope Z_scope.
+(* ---- Tie to the source by translation (Gen/GeneratedTr.v, regenerated from /repo on every run by gen/translate.go) ----
+   g_* are the decision terms translated from the CURRENT Go code: every condition, the branch structure and which
+   white-listed effect statement runs on which path.  The theorems below state that the model's functions - about
+   which every theorem above speaks - are the interpretation of these terms (Z scope inside the generated terms). *)
+(* Outcome, loop over the attributed observations: an observation that fails DecodeAutomationObservation is skipped, any other is added to both counters *)
+Theorem C01_gen_Outcome_loop_decisions :
+  forall invalid : bool,
+  g_outcome_obs_body invalid = if invalid then ([], Cont) else ([1; 2], Fall).
+Proof. exact gen_outcome_obs_body. Qed.
+Print Assumptions C01_gen_Outcome_loop_decisions.
+
+(* the model's valid_obs_list keeps exactly the observations for which that loop body reaches p.add / c.add *)
+Theorem C01_gen_Outcome_counts_valid_only :
+  forall (valid : observation -> bool) (a : aobs) (l : list aobs),
+  valid_obs_list valid (a :: l) =
+  match a with
+  | Undecodable => valid_obs_list valid l
+  | Decoded o => match g_outcome_obs_body (negb (valid o)) with
+                 | ([1; 2], Fall) => o :: valid_obs_list valid l
+                 | _ => valid_obs_list valid l
+                 end
+  end.
+Proof. exact gen_outcome_counts_valid_only. Qed.
+Print Assumptions C01_gen_Outcome_counts_valid_only.
+
+(* Outcome, whole function: the observation loop, then the previous outcome (decoded when present, error returned when undecodable), then p.set before c.set *)
+Theorem C01_gen_Outcome_decisions :
+  forall (prev_nonnil : bool) prev_len (prev_err : bool) n_rounds,
+  let present := prev_nonnil || negb (prev_len =? 0) in
+  g_outcome_body prev_nonnil prev_len prev_err n_rounds =
+  if present then (if prev_err then ([1], RetO 1) else ([1; 2; 3; 4], RetO 2)) else ([1; 3; 4], RetO 2).
+Proof. exact gen_outcome_body. Qed.
+Print Assumptions C01_gen_Outcome_decisions.
+
+(* performables.add, loop body: first copy stored with one vote, otherwise the count is incremented *)
+Theorem C01_gen_add_decisions :
+  forall found : bool,
+  g_perf_add_body found = if found then ([2; 3], Fall) else ([1; 3], Fall).
+Proof. exact gen_perf_add_body. Qed.
+Print Assumptions C01_gen_add_decisions.
+
+(* performables.set, loop over the sorted digests: the model's pick is the interpretation of the generated body *)
+Theorem C01_gen_set_pick_decisions :
+  forall thr added (u : N) (r : result) (c : nat) (t : votes),
+  pick thr added ((u, (r, c)) :: t) =
+  match g_perf_set_pick (Z.of_nat c) (Z.of_nat thr) (memN (r_wid r) added) with
+  | ([1; 2], Fall) => r :: pick thr (r_wid r :: added) t
+  | ([], Fall) => pick thr added t
+  | _ => []
+  end.
+Proof. exact gen_perf_set_pick. Qed.
+Print Assumptions C01_gen_set_pick_decisions.
+
+(* performables.set, whole function: the model's pset is the interpretation of the generated term (truncation exactly when more than the limit were picked) *)
+Theorem C01_gen_set_decisions :
+  forall (shuf : N -> N) (pi_u : votes -> votes) thr limit v,
+  let picked := sort_by (fun r => shuf (r_wid r)) (pick thr [] (sort_by fst (pi_u v))) in
+  pset shuf pi_u thr limit v =
+  match g_perf_set (Z.of_nat (length picked)) (Z.of_nat limit) with
+  | ([1; 2; 3; 4; 5; 6], Fall) => firstn limit picked
+  | ([1; 2; 3; 4; 6], Fall) => picked
+  | _ => []
+  end.
+Proof. exact gen_perf_set. Qed.
+Print Assumptions C01_gen_set_decisions.
+
+End GenTie.
 
 (* Non-vacuity: with an injective digest, three observations of which two carry the same result
    reach the threshold 2 and the result is agreed; the hypotheses of C01_agreed_iff_quorum hold. *)
